@@ -676,6 +676,11 @@ func runC12(c *Ctx) {
 	r.TrustedBase = []string{"scripted peer (c12Peer) and its tag bookkeeping", "Go race detector (reports parsed by run.py)"}
 	r.Assumptions = []string{"packet-size changes are kept out of the concurrent phase", "a name/channel is used by at most one sender and one receiver goroutine at a time (request/response protocol)", "clients retry on 'invalid channel' connection errors, which may be picked up by any channel"}
 	if c.Replay != nil {
+		var cc c12CloseCase
+		if json.Unmarshal(c.Replay, &cc) == nil && cc.Family == "close" {
+			c12CloseRun(c, cc)
+			return
+		}
 		var cs c12Case
 		if err := json.Unmarshal(c.Replay, &cs); err != nil || cs.Channels == 0 {
 			r.Inconclusive("replay of a process-level event: re-running the quick workload instead")
@@ -687,6 +692,7 @@ func runC12(c *Ctx) {
 			return
 		}
 	}
+	runC12Close(c)
 	reps := 12
 	if !c.Quick() {
 		reps = 300
